@@ -338,6 +338,42 @@ fn optlist_str(t: &str) -> Option<Option<Vec<String>>> {
 
 /// `BUILT family a b c d e f`: values made with new()/set_*()
 pub fn built(ws: &[&str]) -> String {
+    if ws.len() == 13 && ws[0] == "introspection" {
+        // every setter of StandardTokenIntrospectionResponse, in a scrambled order
+        let ts = |t: &str| -> Option<Option<chrono::DateTime<chrono::Utc>>> {
+            if t == "-" {
+                Some(None)
+            } else {
+                chrono::DateTime::from_timestamp(t.parse().ok()?, 0).map(Some)
+            }
+        };
+        let tt = |t: &str| -> Option<Option<BasicTokenType>> {
+            if t == "-" { Some(None) } else { parse_tt(t).map(Some) }
+        };
+        let (sc, cid, un, tty, ex, ia, nb, su, au, is, jt) = match (
+            optlist_str(ws[2]), untok_opt_str(ws[3]), untok_opt_str(ws[4]), tt(ws[5]), ts(ws[6]), ts(ws[7]), ts(ws[8]),
+            untok_opt_str(ws[9]), optlist_str(ws[10]), untok_opt_str(ws[11]), untok_opt_str(ws[12]),
+        ) {
+            (Some(a), Some(b), Some(c), Some(d), Some(e), Some(f), Some(g), Some(h), Some(i), Some(j), Some(k)) => (a, b, c, d, e, f, g, h, i, j, k),
+            _ => return BAD.into(),
+        };
+        // start from the opposite activity and unrelated values, then overwrite everything
+        let mut r = BasicTokenIntrospectionResponse::new(ws[1] != "1", EmptyExtraTokenFields {});
+        r.set_jti(jt);
+        r.set_nbf(nb);
+        r.set_scopes(sc.map(|l| l.into_iter().map(Scope::new).collect()));
+        r.set_iss(is);
+        r.set_username(un);
+        r.set_exp(ex);
+        r.set_token_type(tty);
+        r.set_aud(au);
+        r.set_client_id(cid.map(ClientId::new));
+        r.set_iat(ia);
+        r.set_sub(su);
+        r.set_active(ws[1] == "1");
+        r.set_extra_fields(EmptyExtraTokenFields {});
+        return built_rt(&r, render_intro);
+    }
     if ws.len() != 7 {
         return BAD.into();
     }
@@ -347,34 +383,17 @@ pub fn built(ws: &[&str]) -> String {
                 (Some(a), Some(b), Some(c), Some(d), Some(e)) => (a, b, c, d, e),
                 _ => return BAD.into(),
             };
-            let mut t = BasicTokenResponse::new(AccessToken::new(a), b, EmptyExtraTokenFields {});
+            let mut t = BasicTokenResponse::new(AccessToken::new("placeholder".to_string()), BasicTokenType::Extension("placeholder".to_string()), EmptyExtraTokenFields {});
+            t.set_access_token(AccessToken::new(a));
+            t.set_token_type(b);
+            t.set_extra_fields(EmptyExtraTokenFields {});
             let dur = c.map(std::time::Duration::from_secs);
             t.set_expires_in(dur.as_ref());
             t.set_refresh_token(d.map(RefreshToken::new));
             t.set_scopes(e.map(|l| l.into_iter().map(Scope::new).collect()));
             built_rt(&t, render_token)
         }
-        "introspection" => {
-            let active = ws[1] == "1";
-            let (b, c, e, f) = match (optlist_str(ws[2]), untok_opt_str(ws[3]), ws[5], optlist_str(ws[6])) {
-                (Some(b), Some(c), e, Some(f)) => (b, c, e, f),
-                _ => return BAD.into(),
-            };
-            let d = if ws[4] == "-" { None } else { match parse_tt(ws[4]) { Some(t) => Some(t), None => return BAD.into() } };
-            let mut r = BasicTokenIntrospectionResponse::new(active, EmptyExtraTokenFields {});
-            r.set_scopes(b.map(|l| l.into_iter().map(Scope::new).collect()));
-            r.set_client_id(c.map(ClientId::new));
-            r.set_token_type(d);
-            if e != "-" {
-                let secs: i64 = match e.parse() { Ok(s) => s, Err(_) => return BAD.into() };
-                match chrono::DateTime::from_timestamp(secs, 0) {
-                    Some(t) => r.set_exp(Some(t)),
-                    None => return BAD.into(),
-                }
-            }
-            r.set_aud(f);
-            built_rt(&r, render_intro)
-        }
+        "introspection" => return BAD.into(),
         "err-basic" => {
             let (a, b, c) = match (untok_str(ws[1]), untok_opt_str(ws[2]), untok_opt_str(ws[3])) {
                 (Some(a), Some(b), Some(c)) => (a, b, c),
